@@ -265,11 +265,11 @@ inductive Raw where
   deriving Repr, Inhabited
 
 /-- a file system as data: files keyed by their path text, directories that exist without files (real FS only),
-and harness-supplied glob answers for patterns outside the modelled fragment. -/
+and harness-supplied glob answers for patterns outside the modelled fragment (`none` = the pattern is invalid). -/
 structure Tree where
   files : List (String × Raw) := []
   dirs : List String := []
-  ext : List (String × List String) := []
+  ext : List (String × Option (List String)) := []
   deriving Repr, Inhabited
 
 def Tree.lookup (t : Tree) (p : Path) : Option Raw :=
@@ -282,13 +282,27 @@ def readRaw : Option Raw → Outcome IoKind Parsed
 
 def Tree.extGlob (t : Tree) (pat : String) : Outcome LoadErr (List Path) :=
   match t.ext.find? fun kv => kv.1 = pat with
-  | some kv => .ok (kv.2.map parsePath)
+  | some (_, some ps) => .ok (ps.map parsePath)
+  | some (_, none) => .err .invalidIncludeGlob
   | none => .err .globFailure
 
-/-- `FakeFileSystem::glob`: the pattern is canonicalized as a path, compiled, and matched against every key. -/
+def firstChar (s : String) : Option Char := s.toList.head?
+
+/-- `FakeFileSystem::has_wildcard_matched_dot_file`: some component of the key begins with `.` while the
+component of the pattern at the same position begins with a wildcard. -/
+def wildcardMatchedDotFile (pat key : Path) : Bool :=
+  (pat.zip key).any fun pk =>
+    firstChar pk.2.str = some '.' &&
+      (firstChar pk.1.str = some '*' || firstChar pk.1.str = some '?' || firstChar pk.1.str = some '[')
+
+/-- `FakeFileSystem::glob`: the pattern is canonicalized as a path, compiled, and matched against every key;
+keys in which a wildcard would have matched a dot-file are dropped. -/
 def fakeGlob (o : GlobOpts) (t : Tree) (pat : String) : Outcome LoadErr (List Path) :=
-  match tokenize (pathStr (canonFake (parsePath pat))).toList with
-  | .ok ts => .ok ((t.files.filter fun kv => globMatches o ts kv.1).map fun kv => parsePath kv.1)
+  let cpat := canonFake (parsePath pat)
+  match tokenize (pathStr cpat).toList with
+  | .ok ts => .ok ((t.files.filter fun kv =>
+        globMatches o ts kv.1 && !wildcardMatchedDotFile (parsePath (pathStr cpat)) (parsePath kv.1)).map
+      fun kv => parsePath kv.1)
   | .invalid => .err .invalidIncludeGlob
   | .unsupported => t.extGlob pat
 
